@@ -380,6 +380,10 @@ impl C16 {
                         use crate::custom_str::Ci;
                         let diff = cfg.diff_lines(Ci::new(o), Ci::new(n));
                         self.run_ops(case, &diff, out, &mut dig)
+                    } else if case.nl_flag.is_none() && t.alg == crate::gen::Alg::Myers && t.hasher.1 & 16 != 0 {
+                        // the shortcut stands for the default configuration
+                        let diff = TextDiff::from_lines(o, n);
+                        self.run_ops(case, &diff, out, &mut dig)
                     } else {
                         let diff = cfg.diff_lines(o, n);
                         self.run_ops(case, &diff, out, &mut dig)
